@@ -341,16 +341,47 @@ def _convert_node(node: ast.stmt | ast.expr) -> libsbml.ASTNode:
 
 
 def _handle_body(stmts: list[ast.stmt]) -> libsbml.ASTNode:
-    code = libsbml.ASTNode()
-    for stmt in stmts:
-        code = _convert_node(stmt)
-    return code
+    # Only the value of a single return statement can be written as one MathML
+    # expression. Converting just the last statement would silently drop the others.
+    if len(stmts) != 1 or not isinstance(stmts[0], ast.Return):
+        msg = "Only functions consisting of a single return statement can be exported"
+        raise NotImplementedError(msg)
+    return _convert_node(stmts[0])
+
+
+def _free_names(tree: ast.FunctionDef) -> set[str]:
+    """Names read in the body that are neither parameters, called functions nor modules."""
+    structural = {
+        id(node.func)
+        for node in ast.walk(tree)
+        if isinstance(node, ast.Call) and isinstance(node.func, ast.Name)
+    } | {
+        id(node.value)
+        for node in ast.walk(tree)
+        if isinstance(node, ast.Attribute) and isinstance(node.value, ast.Name)
+    }
+    bound = {i.arg for i in tree.args.args}
+    return {
+        node.id
+        for stmt in tree.body
+        for node in ast.walk(stmt)
+        if isinstance(node, ast.Name)
+        and id(node) not in structural
+        and node.id not in bound
+    }
 
 
 def _tree_to_sbml(
     tree: ast.FunctionDef, args: list[str] | None = None
 ) -> libsbml.ASTNode:
     DocstringRemover().visit(tree)
+    if free := _free_names(tree):
+        # e.g. module level constants: their value is not part of the model
+        msg = (
+            f"Function {tree.name} refers to names that are not arguments: "
+            f"{sorted(free)}"
+        )
+        raise NotImplementedError(msg)
     if args is not None:
         fn_args = [i.arg for i in tree.args.args]
         argmap = dict(zip(fn_args, args, strict=True))
